@@ -99,6 +99,28 @@ static gids_t G;
 /* armed for the next update */
 static int L_k; static uid_t *L_u; static gid_t *L_g; static int L_n; static int L_done; static char *L_res;
 static int U_k;
+/* "L:0:<pairs>": the lookups run on ANOTHER thread, which is parked inside its first hash_find() (linker --wrap) while the
+ * refresh runs on this one: if the refresh can swap and destroy the map meanwhile, the resumed lookup walks freed memory
+ * (ASan).  With gids_is_member holding gids->mutex across its lookup the refresh simply waits until the parked lookup gives up
+ * (300 ms) and finishes - the answers are then the old map's. */
+#include <pthread.h>
+static pthread_t P_tid; static volatile int P_armed, P_parked, P_go, P_finished;
+extern void *__real_hash_find (hash_t h, const void *key);
+void *__wrap_hash_find (hash_t h, const void *key) {
+    if (P_armed && !P_parked && pthread_equal (pthread_self (), P_tid)) {
+        int n = 0;
+        __atomic_store_n (&P_parked, 1, __ATOMIC_SEQ_CST);
+        while (!__atomic_load_n (&P_go, __ATOMIC_SEQ_CST) && n++ < 300) usleep (1000);
+    }
+    return __real_hash_find (h, key);
+}
+static void *P_lookup (void *arg) {
+    int i; (void) arg;
+    for (i = 0; i < L_n; i++) L_res[i] = gids_is_member (G, L_u[i], L_g[i]) ? '1' : '0';
+    L_res[L_n] = 0;
+    __atomic_store_n (&P_finished, 1, __ATOMIC_SEQ_CST);
+    return NULL;
+}
 
 void setgrent (void) { scan_idx++; gr_pos = 0; eintr_left = -1; }
 void endgrent (void) { n_endgrent++; }
@@ -257,6 +279,7 @@ static void step (char *w) {
     case 'L':
         f = split_on (w, ':', &nf);
         L_k = atoi (f[1]); L_n = parse_pairs (f[2], &L_u, &L_g); L_res = xalloc ((size_t) L_n + 1, 1); L_done = 0;
+        if (L_k == 0) { L_k = -1; P_armed = 1; }
         emit ("L");
         break;
     case 'U':
@@ -277,7 +300,19 @@ static void step (char *w) {
         cb = tq[0].cb; arg = tq[0].arg;
         memmove (&tq[0], &tq[1], (size_t) (tqn - 1) * sizeof (tq[0])); tqn--;
         scan_idx = 0; gr_pos = 0; eintr_left = -1; n_endgrent = 0; gr_lastlen = 0; pw_lastlen = 0; delivered = 0; gtod_calls = 0;
+        if (P_armed && G) {
+            int n = 0;
+            P_parked = P_go = P_finished = 0;
+            pthread_create (&P_tid, NULL, P_lookup, NULL);
+            while (!__atomic_load_n (&P_parked, __ATOMIC_SEQ_CST) && !__atomic_load_n (&P_finished, __ATOMIC_SEQ_CST) && n++ < 2000) usleep (500);
+        }
         cb (arg);
+        if (P_armed && G) {
+            __atomic_store_n (&P_go, 1, __ATOMIC_SEQ_CST);
+            pthread_join (P_tid, NULL);
+            L_done = 1;
+        }
+        P_armed = 0;
         emit ("T%d.%lu.%lu[%s]", scan_idx, (unsigned long) gr_lastlen, (unsigned long) pw_lastlen, evbuf);
         if (L_k) emit ("{%s}", L_done ? L_res : "-");
         L_k = 0; U_k = 0; gtod_fail = 0;
